@@ -15,6 +15,11 @@ type PolicySpec struct {
 	YEst int     `json:"yest,omitempty"` // estimate of yields per run for placing change points
 	Q    float64 `json:"q,omitempty"`    // site: pre-emption probability at hot sites
 	Seed uint64  `json:"seed"`
+	// stalled task (fault "slow or stalled node"): a pre-empted task may in addition lose StallMs of
+	// virtual time before it becomes runnable again, so that clocks and timers move under it in the
+	// middle of a function.  Off (0) for the families whose oracles compare exact instants.
+	StallP  float64 `json:"stallP,omitempty"`
+	StallMs int     `json:"stallMs,omitempty"`
 }
 
 type policy struct {
@@ -70,6 +75,14 @@ func (p *policy) toNextPoint(s *Sched) int {
 }
 
 func (p *policy) Next(s *Sched, ready []*Task) (int, int) {
+	idx, b := p.next(s, ready)
+	if p.spec.StallP > 0 && p.spec.StallMs > 0 && b >= 0 && p.rng.Float64() < p.spec.StallP {
+		s.NextStall = 1 + p.rng.IntN(p.spec.StallMs)
+	}
+	return idx, b
+}
+
+func (p *policy) next(s *Sched, ready []*Task) (int, int) {
 	switch p.spec.Kind {
 	case "rw", "site":
 		return p.rng.IntN(len(ready)), p.geometric(p.spec.P)
@@ -200,6 +213,7 @@ func (r *Replay) Next(s *Sched, ready []*Task) (int, int) {
 		if b < 0 {
 			b = 0
 		}
+		s.NextStall = w.Z
 	}
 	return idx, b
 }
